@@ -158,3 +158,27 @@ def first_body_node_loc(run):
               clause='not after the decorator line (the decorator is the first token of the body)', path=p)
     core.explore(body2, on2)
     run.case = None
+
+
+@harness(['C13', 'C01'], 'supp.scope.get_first_body_node_loc[call sites: for body, except body, class body]')
+def first_statement_call_sites(run):
+    """a name that becomes visible at the start of a body (a for target, an except name, the names of a class body) is visible from the FIRST
+    line of that body: when the body opens with a decorated def / class that is the decorator line, where the name may already be read"""
+    import supp.linter as L
+    import supp.project as Pj
+
+    def go(path):
+        cases = {
+            'except-name-read-by-the-decorator-of-the-first-statement':
+                'def o(dec, E):\n  try:\n    pass\n  except E as e:\n    @dec(e)\n    def f(): pass\n    return f\n',
+            'for-target-read-by-the-decorator-of-the-first-statement':
+                'def o(dec, xs, use):\n  for i in xs:\n    @dec(i)\n    def f(): pass\n    use(f)\n',
+            'for-target-read-by-a-multi-line-decorator':
+                'def o(dec, xs, use):\n  for i in xs:\n    @dec(\n        i)\n    class K: pass\n    use(K)\n',
+            'except-name-read-by-the-second-decorator':
+                'def o(d1, d2, E):\n  try:\n    pass\n  except E as e:\n    @d1\n    @d2(e)\n    async def f(): pass\n    return f\n',
+        }
+        for label, src in cases.items():
+            got = [d[:4] for d in L.lint(Pj.Project(['/nonexistent']), src)]
+            prove(label, got == [], clause='no diagnostics for\n%s[%r]' % (src, got), path=path)
+    core.explore(lambda: None, lambda p, out: go(p))
